@@ -52,6 +52,7 @@ type Case struct {
 	Vars      map[string]bool   `json:"vars,omitempty"`
 	Refresh   bool              `json:"refresh,omitempty"`
 	QueryText string            `json:"query_text,omitempty"` // if set, used verbatim instead of Query/Frags
+	Wide      bool              `json:"wide,omitempty"`       // a hop below a list of hundreds of objects (oracle only: too large for the model evaluation)
 	Mutation  bool              `json:"mutation,omitempty"`   // the selection set is run as a mutation (the services mirror their Query fields on Mutation)
 }
 
@@ -210,9 +211,9 @@ type qgen struct {
 	nextVar int
 	stats   map[string]int
 	pool    map[string][]string // object type -> names of reusable named fragments on it
-	aliases map[string]int // (field, arguments) -> alias number: injective, so equal aliases never conflict
-	dups    bool // this query repeats aliases with different sub-selections
-	nodirs  bool // this query carries no directives
+	aliases map[string]int      // (field, arguments) -> alias number: injective, so equal aliases never conflict
+	dups    bool                // this query repeats aliases with different sub-selections
+	nodirs  bool                // this query carries no directives
 }
 
 type Enum struct {
@@ -752,6 +753,8 @@ func genCase(r *vh.Rng) Case {
 	c.Refresh = r.Chance(10)
 	if r.Chance(14) {
 		asMutation(r, &c, owners)
+	} else if r.Chance(9) {
+		asWide(r, &c, g, owners)
 	}
 	return c
 }
@@ -784,4 +787,63 @@ func asMutation(r *vh.Rng, c *Case, owners map[string][]string) {
 	for i := range c.Services {
 		c.Services[i].MirrorMutation = true
 	}
+}
+
+// asWide turns the case into a wide one: a root field returning a list of objects gets 300..1500 elements and the
+// query selects, below it, a field of the object that lives on another service -- one hop for hundreds of keys.
+func asWide(r *vh.Rng, c *Case, g *qgen, owners map[string][]string) {
+	type cand struct {
+		qf    fedgen.Field
+		other fedgen.Field
+	}
+	var cands []cand
+	for _, qf := range g.u.query {
+		if qf.Ret.Kind != "obj" || !qf.Ret.List || qf.Ret.List2 {
+			continue
+		}
+		qo := owners["Query."+fedgen.GqlName(qf.Name)]
+		if len(qo) != 1 {
+			continue
+		}
+		for _, f := range g.u.objects[qf.Ret.Target] {
+			fo := owners[qf.Ret.Target+"."+fedgen.GqlName(f.Name)]
+			if len(fo) != 1 || fo[0] == qo[0] || f.Ret.List || f.Ret.Kind == "union" || f.Ret.Kind == "leaf" {
+				continue
+			}
+			cands = append(cands, cand{qf, f})
+		}
+	}
+	if len(cands) == 0 {
+		return
+	}
+	k := cands[r.Intn(len(cands))]
+	wide := []int{300, 501, 700, 1001, 1100, 1500}[r.Intn(6)]
+	for i := range c.Services {
+		for j := range c.Services[i].Query {
+			if c.Services[i].Query[j].Name == k.qf.Name {
+				c.Services[i].Query[j].Ret.Wide = wide
+			}
+		}
+	}
+	mk := func(f fedgen.Field) Sel {
+		s := Sel{Name: fedgen.GqlName(f.Name), Alias: fedgen.GqlName(f.Name)}
+		for _, a := range f.Args {
+			if !a.Opt {
+				s.Args = append(s.Args, KV{fedgen.GqlName(a.Name), g.argValue(a)})
+			}
+		}
+		return s
+	}
+	root := mk(k.qf)
+	child := mk(k.other)
+	if k.other.Ret.Kind == "obj" {
+		child.Subs = []Sel{{Alias: "id", Name: "id"}}
+	}
+	root.Subs = []Sel{{Alias: "id", Name: "id"}, child}
+	if r.Bool() {
+		root.Subs = append(root.Subs, Sel{Alias: "org", Name: "org"})
+	}
+	c.Query, c.Frags, c.Vars = []Sel{root}, nil, nil
+	c.Wide = true
+	c.Refresh = false
 }
